@@ -1712,7 +1712,7 @@ class Exec(object):
             lst = self.iter_list(args[0], st, node)
             keyf = kw.get("key")
             self.trusted.add("sorted(xs, key=f): modelled as a list s of the same length with a bijection p on the indices, "
-                             "s[i] == xs[p(i)], and f(s[i]) <= f(s[j]) for i < j (order of equal keys not modelled)")
+                             "s[i] == xs[p(i)] (p has an inverse), and f(s[i]) <= f(s[j]) for i < j (order of equal keys not modelled)")
             et = lst.et or type_of(lst.get(z3.Int(fresh_name("probe"))))
             if not isinstance(et, (TInt, TRef)):
                 raise Unsupported("sorted() of a list of %r" % (et,))
@@ -1748,6 +1748,15 @@ class Exec(object):
                                 patterns=[z3.MultiPattern(pi(i), pi(j))]))
             st.define(z3.ForAll([i, j], z3.Implies(z3.And(0 <= i, i < j, j < n), ki <= kj),
                                 patterns=[z3.MultiPattern(z3.Select(arr, i), z3.Select(arr, j))]))
+            # the permutation has an inverse: every element of the argument occurs in the result
+            inv = z3.Function(fresh_name("sorted_inv"), IntS, IntS)
+            xs_j = lst.get(j).t
+            try:
+                st.define(z3.ForAll([j], z3.Implies(z3.And(0 <= j, j < n), z3.And(
+                    0 <= inv(j), inv(j) < n, pi(inv(j)) == j, z3.Select(arr, inv(j)) == xs_j)), patterns=[xs_j]))
+            except z3.Z3Exception:
+                st.define(z3.ForAll([j], z3.Implies(z3.And(0 <= j, j < n), z3.And(
+                    0 <= inv(j), inv(j) < n, pi(inv(j)) == j, z3.Select(arr, inv(j)) == xs_j)), patterns=[inv(j)]))
             return res
         if name in ("all", "any"):
             lst = self.iter_list(args[0], st, node)
